@@ -127,6 +127,34 @@ pub closed spec fn er_entity(r: EntityRight) -> String { r.entity }
 pub closed spec fn er_self(r: EntityRight) -> bool { r.mutate_self }
 pub closed spec fn er_all(r: EntityRight) -> bool { r.mutate_all }
 
+// ---- append-only, date-ordered updates of history lists (contracts of the add_* mutators)
+pub closed spec fn user_list(m: Map<Vec<u8>, Vec<User>>, k: Vec<u8>) -> Seq<User> { if m.contains_key(k) { m[k]@ } else { Seq::<User>::empty() } }
+/// append-only, date-ordered update of one history list; every other key untouched
+pub closed spec fn users_appended(old_m: Map<Vec<u8>, Vec<User>>, new_m: Map<Vec<u8>, Vec<User>>, user: User) -> bool {
+    new_m.contains_key(user.verifying_key) && new_m[user.verifying_key]@ == user_list(old_m, user.verifying_key).push(user)
+    && (forall|k: Vec<u8>| #![trigger old_m.contains_key(k)] #![trigger new_m.contains_key(k)]
+            k != user.verifying_key ==> (old_m.contains_key(k) == new_m.contains_key(k)) && (old_m.contains_key(k) ==> old_m[k] == new_m[k]))
+}
+/// refused update: nothing but possibly an empty list for a new key appears; every existing list is unchanged
+pub closed spec fn users_unchanged(old_m: Map<Vec<u8>, Vec<User>>, new_m: Map<Vec<u8>, Vec<User>>) -> bool {
+    forall|k: Vec<u8>| #![trigger old_m.contains_key(k)] #![trigger new_m.contains_key(k)]
+        (old_m.contains_key(k) ==> new_m.contains_key(k) && old_m[k]@ == new_m[k]@)
+        && (new_m.contains_key(k) && !old_m.contains_key(k) ==> new_m[k]@.len() == 0)
+}
+pub closed spec fn last_date_le(s: Seq<User>, d: i64) -> bool { s.len() > 0 ==> s.last().date <= d }
+pub closed spec fn right_list(m: Map<String, Vec<EntityRight>>, k: String) -> Seq<EntityRight> { if m.contains_key(k) { m[k]@ } else { Seq::<EntityRight>::empty() } }
+pub closed spec fn rights_appended(old_m: Map<String, Vec<EntityRight>>, new_m: Map<String, Vec<EntityRight>>, right: EntityRight) -> bool {
+    new_m.contains_key(right.entity) && new_m[right.entity]@ == right_list(old_m, right.entity).push(right)
+    && (forall|k: String| #![trigger old_m.contains_key(k)] #![trigger new_m.contains_key(k)]
+            k != right.entity ==> (old_m.contains_key(k) == new_m.contains_key(k)) && (old_m.contains_key(k) ==> old_m[k] == new_m[k]))
+}
+pub closed spec fn rights_unchanged(old_m: Map<String, Vec<EntityRight>>, new_m: Map<String, Vec<EntityRight>>) -> bool {
+    forall|k: String| #![trigger old_m.contains_key(k)] #![trigger new_m.contains_key(k)]
+        (old_m.contains_key(k) ==> new_m.contains_key(k) && old_m[k]@ == new_m[k]@)
+        && (new_m.contains_key(k) && !old_m.contains_key(k) ==> new_m[k]@.len() == 0)
+}
+pub closed spec fn last_from_le(s: Seq<EntityRight>, d: i64) -> bool { s.len() > 0 ==> s.last().valid_from <= d }
+
 // ---- the closed form of `v.iter().rev().find(|x| x.date <= date)` and its link to last_*_at
 pub closed spec fn rfind_user(s: Seq<User>, date: i64, r: Option<&User>) -> bool {
     let rem = s.as_ref().reverse();
